@@ -3,6 +3,7 @@ package gen
 import (
 	"fmt"
 	"strings"
+	"unicode/utf8"
 )
 
 // Rand is the only source of choices.
@@ -28,12 +29,14 @@ type Config struct {
 	NullableLoops bool
 	// LeftRec asks for a left-recursive grammar of one of the canonical shapes.
 	LeftRec bool
+	// LeftRecDirect restricts LeftRec to directly left-recursive rules.
+	LeftRecDirect bool
 	// StateBias puts state blocks in front of likely failure points.
 	StateBias bool
 	// Unused adds rules that nothing references; Undefined adds references to
 	// rules that do not exist (tool world only).
-	Unused    bool
-	Undefined bool
+	Unused     bool
+	Undefined  bool
 	SharedLeaf bool // small leaf rules referenced from several places (optimizer food)
 	// FreeRefs lets every rule reference every rule, preferably in leading
 	// position, and skips the left-recursion filter (tool world only: such
@@ -151,6 +154,9 @@ func (c *gctx) expr(depth int, consuming bool) *Expr {
 		}
 		return c.terminal()
 	}
+	if c.cfg.StateBias && c.cfg.States && !c.inRecov && c.chance(1, 4) {
+		return c.stateProbe(depth, consuming)
+	}
 	for tries := 0; tries < 20; tries++ {
 		switch c.r.Intn(16) {
 		case 0, 1, 2:
@@ -232,6 +238,64 @@ func (c *gctx) expr(depth int, consuming bool) *Expr {
 		}
 	}
 	return c.terminal()
+}
+
+// stateProbe builds the shapes the state-store property quantifies over: a
+// state change followed by a point where the enclosing expression may fail,
+// inside each kind of enclosing expression, with an observer afterwards.
+func (c *gctx) stateProbe(depth int, consuming bool) *Expr {
+	pred := func() *Expr {
+		if !c.cfg.Preds {
+			return c.terminal()
+		}
+		if c.chance(1, 3) {
+			return &Expr{Kind: NotCode}
+		}
+		return &Expr{Kind: AndCode}
+	}
+	probe := func() *Expr {
+		items := []*Expr{{Kind: State}}
+		if c.chance(1, 2) {
+			items = append(items, c.expr(depth-1, false))
+		}
+		if c.chance(1, 3) {
+			items = append(items, &Expr{Kind: State})
+		}
+		items = append(items, pred())
+		return &Expr{Kind: Seq, Subs: items}
+	}
+	observer := func(e *Expr) *Expr {
+		if c.cfg.Actions {
+			return &Expr{Kind: Action, Subs: []*Expr{e}}
+		}
+		return &Expr{Kind: Seq, Subs: []*Expr{e, pred()}}
+	}
+	switch c.r.Intn(6) {
+	case 0, 1: // choice of several probes, then an observing alternative
+		n := 2 + c.r.Intn(3)
+		e := &Expr{Kind: Choice}
+		for i := 0; i < n; i++ {
+			e.Subs = append(e.Subs, probe())
+		}
+		e.Subs = append(e.Subs, observer(c.terminal()))
+		return e
+	case 2: // predicate around a probe, observer after
+		k := And
+		if c.chance(1, 2) {
+			k = Not
+		}
+		return &Expr{Kind: Seq, Subs: []*Expr{{Kind: k, Subs: []*Expr{probe()}}, observer(c.terminal())}}
+	case 3: // optional probe
+		return &Expr{Kind: Seq, Subs: []*Expr{{Kind: Opt, Subs: []*Expr{probe()}}, observer(c.terminal())}}
+	case 4: // repetition whose iterations change state and may fail late
+		body := &Expr{Kind: Seq, Subs: []*Expr{c.terminal(), {Kind: State}, pred()}}
+		if body.Subs[0].Kind == Lit && body.Subs[0].Text == "" {
+			body.Subs[0] = &Expr{Kind: Any}
+		}
+		return &Expr{Kind: Seq, Subs: []*Expr{{Kind: Star, Subs: []*Expr{body}}, observer(c.terminal())}}
+	default: // sequence failing after a state change, inside an alternative
+		return &Expr{Kind: Choice, Subs: []*Expr{{Kind: Seq, Subs: []*Expr{c.terminal(), {Kind: State}, c.terminal(), pred()}}, observer(c.terminal())}}
+	}
 }
 
 func min(a, b int) int {
@@ -437,7 +501,11 @@ func generateLR(c *gctx) *Grammar {
 	}
 	ref := func(n string) *Expr { return &Expr{Kind: Ref, Name: n} }
 	seq := func(items ...*Expr) *Expr { return &Expr{Kind: Seq, Subs: items} }
-	switch c.r.Intn(5) {
+	shape := c.r.Intn(5)
+	if c.cfg.LeftRecDirect {
+		shape = []int{0, 2}[c.r.Intn(2)]
+	}
+	switch shape {
 	case 0: // A <- A op B / B
 		g.Rules = append(g.Rules,
 			&Rule{Name: "Start", Expr: seq(ref("Aa"), &Expr{Kind: Not, Subs: []*Expr{{Kind: Any}}})},
@@ -542,6 +610,10 @@ func (g *Grammar) SampleInput(r Rand, maxLen int) []byte {
 	walk(g.Rules[0].Expr, 0)
 	if len(b) > maxLen {
 		b = b[:maxLen]
+		// never cut a multi-byte rune in two
+		for len(b) > 0 && !utf8.Valid(b) {
+			b = b[:len(b)-1]
+		}
 	}
 	return b
 }
